@@ -92,9 +92,9 @@ func ReadName(r ParseReader) (Name, error) {
 // Bytes returns the encoded bytes of a Name
 func (n Name) Bytes() []byte {
 	l := n.EncodingLength()
-	buf := make([]byte, TypeName.EncodingLength()+Nat(l).EncodingLength()+l)
+	buf := make([]byte, TypeName.EncodingLength()+TLNum(l).EncodingLength()+l)
 	p1 := TypeName.EncodeInto(buf)
-	p2 := Nat(l).EncodeInto(buf[p1:])
+	p2 := TLNum(l).EncodeInto(buf[p1:])
 	n.EncodeInto(buf[p1+p2:])
 	return buf
 }
